@@ -138,24 +138,57 @@ Proof.
   - intros Hr. cbn [fst] in Hr. lia.
 Qed.
 
-(** Reads purge expired facts and swallow the storage errors of the purge:
-    call 1 fails inside this Rem (it is the purge of the expired dependent
-    "a"), and Rem still answers Ok. *)
+(** Reads of the INDEXED state purge expired facts and swallow the storage
+    errors of the purge (IndexedState.search / doFindRules log the error of
+    [expire] and count the item as expired): call 1 fails inside this Rem (it
+    is the purge of the expired dependent "a", met by the search of the
+    dependents of "b"), and Rem still answers Ok. *)
+Definition swallow_fact : json := JObj [("deleteWith", JArr [JStr "b"]); ("expires", JNum 5)].
+
 Definition swallow_state : state :=
-  mkState Linear [("a", JObj [("deleteWith", JArr [JStr "b"]); ("expires", JNum 5)])] [] pn_empty
-          [("a", JObj [("deleteWith", JArr [JStr "b"]); ("expires", JNum 5)])]
-          false 0 (Some 1%nat) false.
+  set_fail (fst (st_add (empty_state Indexed false) "a" swallow_fact 0 "a" None)) (Some 1%nat).
 
 Lemma purge_errors_swallowed_example :
+  st_kind swallow_state = Indexed /\
   st_fail swallow_state = Some 1%nat /\
-  st_calls swallow_state = 0%nat /\
+  st_calls swallow_state = 1%nat /\
   st_calls (fst (st_Rem swallow_state "b" 10)) = 2%nat /\
   snd (st_Rem swallow_state "b" 10) = Ok false /\
-  (* the expired fact is still there: its purge failed silently *)
-  st_facts (fst (st_Rem swallow_state "b" 10)) = st_facts swallow_state /\
+  (* the expired fact has left the memory and not the storage: its purge failed silently *)
+  st_facts (fst (st_Rem swallow_state "b" 10)) = [] /\
+  st_store (fst (st_Rem swallow_state "b" 10)) = st_store swallow_state /\
+  st_store swallow_state = [("a", swallow_fact)] /\
   (* likewise for a search *)
-  snd (st_search (set_fail swallow_state (Some 0%nat)) (JObj []) 10) = Ok [] /\
-  st_calls (fst (st_search (set_fail swallow_state (Some 0%nat)) (JObj []) 10)) = 1%nat.
+  snd (st_search swallow_state (dw_pattern "b") 10) = Ok [] /\
+  st_calls (fst (st_search swallow_state (dw_pattern "b") 10)) = 2%nat.
+Proof. vm_compute. repeat split; reflexivity. Qed.
+
+(** The LINEAR state reports them: LinearState.search / doFindRules return the
+    error of [expire] at once, so the Rem (through deleteDependencies), the
+    search and the rule lookup that meet the failing purge answer with the
+    storage's error; the expired fact stays where it was (LinearState.rem
+    gives up before touching the memory). *)
+Definition report_state : state :=
+  mkState Linear [("a", swallow_fact)] [] pn_empty [("a", swallow_fact)] false 0 (Some 1%nat) false.
+
+Definition report_rule_state : state :=
+  let r := JObj [("expires", JNum 5); ("rule", JObj [("when", JObj [("pattern", JObj [])])])] in
+  mkState Linear [("r", r)] [] pn_empty [("r", r)] false 0 (Some 0%nat) false.
+
+Lemma purge_errors_reported_linear_example :
+  st_calls (fst (st_Rem report_state "b" 10)) = 2%nat /\
+  snd (st_Rem report_state "b" 10) = Err "storage" /\
+  st_facts (fst (st_Rem report_state "b" 10)) = st_facts report_state /\
+  st_store (fst (st_Rem report_state "b" 10)) = st_store report_state /\
+  snd (st_search (set_fail report_state (Some 0%nat)) (JObj []) 10) = Err "storage" /\
+  st_calls (fst (st_search (set_fail report_state (Some 0%nat)) (JObj []) 10)) = 1%nat /\
+  st_facts (fst (st_search (set_fail report_state (Some 0%nat)) (JObj []) 10)) = st_facts report_state /\
+  snd (st_find_rules report_rule_state (JObj []) 10) = Err "storage" /\
+  st_facts (fst (st_find_rules report_rule_state (JObj []) 10)) = st_facts report_rule_state /\
+  (* the same rule lookup on the indexed kind answers Ok (no candidate) *)
+  snd (st_find_rules (set_fail (fst (st_add (empty_state Indexed false) "r"
+                        (JObj [("expires", JNum 5); ("rule", JObj [("when", JObj [("pattern", JObj [])])])])
+                        0 "r" None)) (Some 1%nat)) (JObj []) 10) = Ok [].
 Proof. vm_compute. repeat split; reflexivity. Qed.
 
 (** * A5: crash containment *)
